@@ -170,9 +170,20 @@ func envTarReader(entries []envTarEntry, truncated bool) io.Reader {
 func envWriter() io.Writer { return envDummyRW{} }
 
 // envTarWritten: what Pack wrote, decoded.
-func envTarWritten() []envTarEntry {
+func envTarWritten() []envTarEntry { return envTarWrittenBy(0) }
+
+// envOnFirstWrite: run f when the next Pack first writes to its output (a yield point: f may
+// start another Pack on the same Packer, which is what an overlapping call looks like at this
+// granularity).
+func envOnFirstWrite(f func()) { tHook = f }
+
+// envTarWrittenBy: what the i-th Pack call since the last reset wrote.
+func envTarWrittenBy(i int) []envTarEntry {
 	var out []envTarEntry
 	for _, e := range tOut {
+		if e.w != i {
+			continue
+		}
 		out = append(out, envTarEntry{Name: e.hdr.Name, Linkname: e.hdr.Linkname, Typeflag: e.hdr.Typeflag, Mode: e.hdr.Mode,
 			Mtime: e.hdr.ModTime.Unix(), Body: e.body})
 	}
@@ -190,7 +201,7 @@ func model_lchtimes(i unpackinfo.UnpackInfo) error {
 
 func envTime(sec int64) time.Time { return time.Unix(sec, 0) }
 
-func envTarResetOutput() { tOut, tOutClosed, tGzClosed, tCopied = nil, false, false, 0 }
+func envTarResetOutput() { tOut, tOutClosed, tGzClosed, tCopied, tWriters = nil, false, false, 0, nil }
 
 // Fault injection. Model: a budget of symbolic faults over the channel calls of one run. Native:
 // the harness loops envFaultRuns() times and run k makes the k-th underlying Write / Read fail.
@@ -198,4 +209,14 @@ func envFaultRuns() int { return 1 }
 func envFaultArm(run, budget int) {
 	tFaultLeft = budget
 	tFaultsHit = nil
+}
+
+// envRewriteFile: replace the content of an existing file (an editor saving it).
+func envRewriteFile(path, data string) {
+	_, idx, e := vResolve(path, true, 0)
+	if e != 0 || idx < 0 {
+		verif.Assume(false)
+		return
+	}
+	vNodes[idx].data = data
 }
